@@ -45,9 +45,9 @@ V3r == {d \in DictsOver(Leaves \cup V2r, K) :
 
 LevelsQuick == {-1, 0, 1, 2}
 LevelsThorough == {-1, 0, 1, 2, 3}
-LevelsDeep == {-1, 2, 3}
+LevelsDeep == {-1, 2}
 AllOps == {"inter", "diff", "updrec", "nested"}
-PairOps == {"diff", "updrec", "nested"}
+PairOps == {"inter", "diff", "updrec"}
 InterOnly == {"inter"}
 NoDicts == {}
 
